@@ -10,6 +10,7 @@ pub fn run_case(kind: &str, fields: Vec<String>) -> Vec<String> {
             "open".to_string()
         }],
         "progx" => progx::run(fields),
+        "libs" => crate::on_fresh_thread(move || libs(&fields)),
         "imports" => crate::on_fresh_thread(move || imports(&fields)),
         "evalfile" => crate::on_fresh_thread(move || evalfile(&fields)),
         "expand" => crate::on_fresh_thread(move || expand::run(&fields)),
@@ -75,4 +76,49 @@ fn imports(fields: &[String]) -> Vec<String> {
             defs
         }
     }
+}
+
+/// `libs`: fields = mode, then `F<relative path>=<content>` entries (library files under a fresh
+/// program directory; content `\u{0}UNREADABLE` writes bytes that are not UTF-8, `\u{0}DIR` makes
+/// a directory), then `R<lib name elements separated by /> = <text>` entries (sources registered
+/// with register_library_factory), then `>`-prefixed submissions evaluated in order. The process
+/// runs from another working directory than the program directory.
+fn libs(fields: &[String]) -> Vec<String> {
+    use ruschm::interpreter::LibraryFactory;
+    use ruschm::parser::{LibraryName, LibraryNameElement};
+    let dir = std::env::var("HX_TMP").unwrap_or_else(|_| "/verif/build/tmp".to_string());
+    let base = format!("{}/libs-{}-{:?}", dir, std::process::id(), std::thread::current().id());
+    std::fs::remove_dir_all(&base).ok();
+    std::fs::create_dir_all(&base).ok();
+    let mut it = progx::new_interpreter(&fields[0]);
+    it.program_directory = Some(std::path::PathBuf::from(&base));
+    let mut out = vec![];
+    for f in &fields[1..] {
+        if let Some(rest) = f.strip_prefix('F') {
+            let (path, content) = rest.split_once('=').unwrap();
+            let full = std::path::PathBuf::from(&base).join(path);
+            if let Some(parent) = full.parent() {
+                std::fs::create_dir_all(parent).ok();
+            }
+            if content == "\u{0}UNREADABLE" {
+                std::fs::write(&full, b"(define-library \xff\xfe)").unwrap();
+            } else if content == "\u{0}DIR" {
+                std::fs::create_dir_all(&full).ok();
+            } else {
+                std::fs::write(&full, content).unwrap();
+            }
+        } else if let Some(rest) = f.strip_prefix('R') {
+            let (name, text) = rest.split_once('=').unwrap();
+            let lib = LibraryName(name.split('/').map(|e| LibraryNameElement::Identifier(e.to_string())).collect());
+            match std::panic::catch_unwind(std::panic::AssertUnwindSafe(|| LibraryFactory::from_char_stream(&lib, text.chars()))) {
+                Ok(Ok(factory)) => it.register_library_factory(factory),
+                Ok(Err(e)) => out.push(format!("R{}", crate::canon_err(&e))),
+                Err(p) => out.push(crate::panic_message(p)),
+            }
+        } else if let Some(form) = f.strip_prefix('>') {
+            out.push(crate::eval_form(&mut it, form));
+        }
+    }
+    std::fs::remove_dir_all(&base).ok();
+    out
 }
